@@ -318,6 +318,30 @@ def run(ctx: Ctx) -> None:
                msg=f"the test `{short(n.cond, 60)}` that recognises a grouping parenthesis does not admit {missing}, although the function builds a node for it: a grouped declarator starting with {missing} (e.g. 'int (&&x)[3]') is rejected or read as a parameter list",
                node=n.cond, mod=mod)
 
+    # a '(' in a declarator is a parameter list only if it is not a grouping parenthesis: every parameter-list parse of
+    # the loop is decided by a peek for the prefix operators (in the template-argument mode too, where 'int(*)(int)'
+    # and 'int(&)[3]' are type-ids)
+    for n in cfg.nodes:
+        for c, r in pm.node_calls(fname, n):
+            if r != ("self", "_parse_parameters"):
+                continue
+            admitted8: Set[str] = set()
+            for d, lab in cfg.control_deps(n):
+                if d.cond is None:
+                    continue
+                for x in ast.walk(d.cond):
+                    if isinstance(x, ast.Call) and pm.resolve(fname, x) == ("lex", "token_peek_if"):
+                        admitted8 |= {a.value for a in x.args if isinstance(a, ast.Constant)}
+            missing = sorted(ops - admitted8)
+            ctx.ob("R2.8", f"parser:CxxParser.{fname}|parameter list #{_nth(pm.fn(fname), c)} parsed only after the grouping test", not missing,
+                   msg=f"`{short(c, 50)}` takes a '(' for a parameter list without first testing for a grouping parenthesis that starts with {missing}: "
+                       "an abstract declarator such as 'int(*)(int)' or 'int(&)[3]' given as a template argument is not read as a type", node=c, mod=mod)
+
+    # ---------------------------------------------------------------- R2.10
+    ctx.rule("R2.10", "every position where a type-id is read (parameter, alias, template argument) reads the array suffix of an abstract declarator", minimum=3)
+    from .c17 import type_id_array_suffix
+    type_id_array_suffix(ctx, "R2.10", pm)
+
     # ---------------------------------------------------------------- R2.9
     # Parentheses after a parameter's type are dropped ("name can be surrounded by parens") by
     # re-queuing the group's inner tokens.  That is only the identity on the type when the group
